@@ -60,15 +60,19 @@ func ParseDuration(s string) (Duration, error) {
 	i := 0
 	unitI := 0
 
-	negative := int64(1)
+	negative := false
+	// the magnitude is accumulated unsigned so that the minimum value, whose magnitude
+	// exceeds MaxInt64 by one, can be parsed
+	limit := uint64(math.MaxInt64)
 	if s[i] == '-' {
-		negative = int64(-1)
+		negative = true
+		limit++
 		i++
 	}
 
 	var (
-		total    int64
-		value    int64
+		total    uint64
+		value    uint64
 		unit     string
 		hasValue bool
 	)
@@ -76,8 +80,8 @@ func ParseDuration(s string) (Duration, error) {
 	// ([0-9]+)(d|h|m|s|ms) ...
 	for i < len(s) && unitI < len(unitOrder) {
 		if unicode.IsDigit(rune(s[i])) {
-			digit := int64(s[i] - '0')
-			if value > (math.MaxInt64-digit)/10 {
+			digit := uint64(s[i] - '0')
+			if value > (limit-digit)/10 {
 				return Duration{}, fmt.Errorf("%w: overflow", errDuration)
 			}
 			value = value*10 + digit
@@ -108,12 +112,12 @@ func ParseDuration(s string) (Duration, error) {
 				return Duration{}, fmt.Errorf("%w: unexpected unit '%s'", errDuration, unit)
 			}
 
-			millis := unitToMillis[unit]
-			if millis > 0 && value > math.MaxInt64/millis {
+			millis := uint64(unitToMillis[unit])
+			if millis > 0 && value > limit/millis {
 				return Duration{}, fmt.Errorf("%w: overflow", errDuration)
 			}
 			product := value * millis
-			if total > math.MaxInt64-product {
+			if total > limit-product {
 				return Duration{}, fmt.Errorf("%w: overflow", errDuration)
 			}
 			total = total + product
@@ -135,7 +139,10 @@ func ParseDuration(s string) (Duration, error) {
 		return Duration{}, fmt.Errorf("%w: invalid duration", errDuration)
 	}
 
-	return Duration{value: negative * total}, nil
+	if negative {
+		return Duration{value: int64(-total)}, nil
+	}
+	return Duration{value: int64(total)}, nil
 }
 
 // Equal returns true if the input represents the same duration
@@ -176,42 +183,42 @@ func (d Duration) String() string {
 		return "0ms"
 	}
 
-	remaining := d.value
+	remaining := uint64(d.value)
 	if d.value < 0 {
-		remaining = -d.value
+		remaining = -uint64(d.value) // also correct for the minimum value
 		res.WriteByte('-')
 	}
 
-	days := remaining / consts.MillisPerDay
+	days := remaining / uint64(consts.MillisPerDay)
 	if days > 0 {
-		res.WriteString(strconv.FormatInt(days, 10))
+		res.WriteString(strconv.FormatUint(days, 10))
 		res.WriteByte('d')
 	}
-	remaining %= consts.MillisPerDay
+	remaining %= uint64(consts.MillisPerDay)
 
-	hours := remaining / consts.MillisPerHour
+	hours := remaining / uint64(consts.MillisPerHour)
 	if hours > 0 {
-		res.WriteString(strconv.FormatInt(hours, 10))
+		res.WriteString(strconv.FormatUint(hours, 10))
 		res.WriteByte('h')
 	}
-	remaining %= consts.MillisPerHour
+	remaining %= uint64(consts.MillisPerHour)
 
-	minutes := remaining / consts.MillisPerMinute
+	minutes := remaining / uint64(consts.MillisPerMinute)
 	if minutes > 0 {
-		res.WriteString(strconv.FormatInt(minutes, 10))
+		res.WriteString(strconv.FormatUint(minutes, 10))
 		res.WriteByte('m')
 	}
-	remaining %= consts.MillisPerMinute
+	remaining %= uint64(consts.MillisPerMinute)
 
-	seconds := remaining / consts.MillisPerSecond
+	seconds := remaining / uint64(consts.MillisPerSecond)
 	if seconds > 0 {
-		res.WriteString(strconv.FormatInt(seconds, 10))
+		res.WriteString(strconv.FormatUint(seconds, 10))
 		res.WriteByte('s')
 	}
-	remaining %= consts.MillisPerSecond
+	remaining %= uint64(consts.MillisPerSecond)
 
 	if remaining > 0 {
-		res.WriteString(strconv.FormatInt(remaining, 10))
+		res.WriteString(strconv.FormatUint(remaining, 10))
 		res.WriteString("ms")
 	}
 
